@@ -389,19 +389,29 @@ pub fn examples(th: bool) -> Vec<Example> {
     }
     // ---------------------------------------------------------------- srflp
     {
-        let ns: Vec<usize> = if th { vec![2, 3, 4] } else { vec![2, 3] };
-        let sizes: Vec<u64> = ns.iter().map(|n| (1u64 << n) * 3u64.pow((n * (n - 1) / 2) as u32)).collect();
+        // (departments, length alphabet, flow alphabet).  Merged states only come with >= 4 departments and their cut values only
+        // matter when the flow matrix is dense: the 5-department scope over lengths {1,3} and flows {1,2} is what exposes an arc of a
+        // merged node which counts one cut too many (seeded change C16zr3)
+        // last component: only the length vectors which are non-decreasing (departments relabelled by length; quick tier)
+        let mut scopes: Vec<(usize, Vec<i64>, Vec<i64>, bool)> = if th { vec![(2, vec![1, 2], vec![0, 1, 2], false), (3, vec![1, 2], vec![0, 1, 2], false), (4, vec![1, 2], vec![0, 1, 2], false), (5, vec![1, 2], vec![1, 2], false), (5, vec![1, 3], vec![0, 2], true)] }
+                                                          else { vec![(2, vec![1, 2], vec![0, 1, 2], false), (3, vec![1, 2], vec![0, 1, 2], false), (5, vec![1, 2], vec![1, 2], true)] };
+        // maintenance knob (never set by a registered command): VERIF_SRFLP_SCOPE="<n>;<lengths, comma separated>;<flows, comma separated>"
+        if let Ok(sv) = std::env::var("VERIF_SRFLP_SCOPE") { let p: Vec<&str> = sv.split(';').collect(); if p.len() >= 3 { scopes = vec![(p[0].trim().parse().unwrap_or(3), p[1].split(',').filter_map(|x| x.trim().parse().ok()).collect(), p[2].split(',').filter_map(|x| x.trim().parse().ok()).collect(), p.len() > 3)]; } }
+        let lvecs = |n: usize, la: &[i64], sorted: bool| -> Vec<Vec<i64>> { let b = la.len(); let mut out = vec![]; let mut cur = vec![0usize; n]; loop { if !sorted || cur.windows(2).all(|w| w[0] <= w[1]) { out.push(cur.iter().map(|i| la[*i]).collect()); } let mut p = 0; loop { if p == n { return out; } cur[p] += 1; if cur[p] < b { break; } cur[p] = 0; p += 1; } } };
+        let lens_of: Vec<Vec<Vec<i64>>> = scopes.iter().map(|(n, la, _, so)| lvecs(*n, la, *so)).collect();
+        let sizes: Vec<u64> = scopes.iter().zip(lens_of.iter()).map(|((n, _, fa, _), lv)| lv.len() as u64 * (fa.len() as u64).pow((n * (n - 1) / 2) as u32)).collect();
         let count = sizes.iter().sum();
-        let nsc = ns.clone();
-        ex.push(Example { name: "srflp", scope: format!("departments in {:?}, lengths in {{1,2}}, symmetric flows in {{0,1,2}}, all combinations", ns), count, file_flag: None, tsptw_output: false, extra: vec![],
+        let sc = scopes.clone();
+        ex.push(Example { name: "srflp", scope: format!("(departments, length alphabet, flow alphabet, only non-decreasing length vectors) in {:?}: all combinations (symmetric flows)", scopes), count, file_flag: None, tsptw_output: false, extra: vec![],
             arg_sets: argsets(&w4, tt, "-w", "-t"),
             gen: Box::new(move |mut idx| {
                 let mut k = 0;
                 while idx >= sizes[k] { idx -= sizes[k]; k += 1; }
-                let n = nsc[k];
-                let lens: Vec<i64> = (0..n).map(|_| digit(&mut idx, 2) as i64 + 1).collect();
+                let (n, _, fa, _) = &sc[k];
+                let n = *n;
+                let lens: Vec<i64> = lens_of[k][digit(&mut idx, lens_of[k].len() as u64) as usize].clone();
                 let mut c = vec![vec![0i64; n]; n];
-                for a in 0..n { for b in a + 1..n { let f = digit(&mut idx, 3) as i64; c[a][b] = f; c[b][a] = f; } }
+                for a in 0..n { for b in a + 1..n { let f = fa[digit(&mut idx, fa.len() as u64) as usize]; c[a][b] = f; c[b][a] = f; } }
                 let mut best: Option<f64> = None;
                 for p in perms(n) {
                     let mut pos = vec![0.0; n]; let mut x = 0.0;
